@@ -34,6 +34,7 @@ import (
 //	                backcg<j> (log restored, consumer group meta keeps its newer content)
 //	off | on        follower offline / online notification through the state manager
 //	gc              leader Sync + GC (partition.IsExpire)
+//	land            a follower append left in flight by fault inflightPut reaches the follower's queue now
 type event struct {
 	Kind  string
 	N     int
@@ -62,7 +63,7 @@ func (e event) String() string {
 
 func parseEvent(tok string) (event, error) {
 	switch {
-	case tok == "s" || tok == "rst" || tok == "fc" || tok == "off" || tok == "on" || tok == "gc":
+	case tok == "s" || tok == "rst" || tok == "fc" || tok == "off" || tok == "on" || tok == "gc" || tok == "land":
 		return event{Kind: tok}, nil
 	case strings.HasPrefix(tok, "s:"):
 		return event{Kind: "s", Fault: tok[2:]}, nil
@@ -195,6 +196,8 @@ type driver struct {
 	hsAckBad           bool // the last completed handshake itself left the leader's ack beyond the follower
 
 	wipedAfterHandshake bool // fault wipeBeforeStream fired during the current Prepare
+
+	followerChangedBehindHandshake bool // during the current event
 }
 
 func newDriver(w *world, rnd *rand.Rand, res *seqResult) *driver {
@@ -339,6 +342,7 @@ func (d *driver) exec(e event) {
 	t0 := time.Now()
 	pre := d.observe()
 	putErrsBefore := atomic.LoadInt32(&d.w.putErrs)
+	landedBefore := atomic.LoadInt32(&d.w.landed)
 	switch e.Kind {
 	case "a":
 		d.doAppend(e.N)
@@ -380,6 +384,10 @@ func (d *driver) exec(e event) {
 			d.afterPrepare(pre, ready, false)
 			d.w.tr.clearObs()
 		}
+	case "land":
+		if d.w.releaseParkedPut() {
+			d.count("fault.inflight_append_landed_later", 1)
+		}
 	case "gc":
 		if d.w.lPart.IsExpire() {
 			d.res.Fatal = "harness: leader partition reported itself expired"
@@ -395,6 +403,7 @@ func (d *driver) exec(e event) {
 		return
 	}
 	post := d.observe()
+	d.followerChangedBehindHandshake = atomic.LoadInt32(&d.w.landed) > landedBefore || (e.Kind == "s" && e.Fault == "wipeBeforeStream")
 	d.checkInvariants(pre, post, e, atomic.LoadInt32(&d.w.putErrs) > putErrsBefore)
 	d.res.Evals++
 	t1 := time.Now()
@@ -936,8 +945,10 @@ func (d *driver) checkInvariants(pre, post obs, e event, putErr bool) {
 			switch {
 			case putErr:
 				d.desyncCause = "follower-put-error"
-			case e.Kind == "s" && e.Fault == "wipeBeforeStream":
-				d.desyncCause = "follower-lost-log-between-handshake-and-stream"
+			case d.followerChangedBehindHandshake:
+				// the follower's log moved (lost between handshake and stream creation, or an in-flight append of a
+				// dead stream landed) while the leader was, and stays, in the ready state
+				d.desyncCause = "follower-log-changed-after-handshake"
 			case e.Kind == "s":
 				d.desyncCause = "step"
 				if e.Fault != "" {
@@ -963,8 +974,8 @@ func (d *driver) progress() {
 	w := d.w
 	d.progressPhase = true
 	d.evIdx = len(d.events)
-	if w.releaseParkedPut() {
-		d.count("fault.inflight_put_landed_at_end_of_faults", 1)
+	if w.hasParkedPut() {
+		d.exec(event{Kind: "land"})
 	}
 	if !w.fUp {
 		d.exec(event{Kind: "fs", Mode: "keep"})
@@ -1176,6 +1187,8 @@ func genSequence(rnd *rand.Rand, idx int, maxLen int) []event {
 		case x < 94:
 			evs = append(evs, event{Kind: "on"})
 			off = false
+		case x < 96:
+			evs = append(evs, event{Kind: "land"})
 		default:
 			evs = append(evs, event{Kind: "gc"})
 		}
